@@ -56,6 +56,11 @@ def contracts():
                 "same_object(encoded_body, call_result('expand_args', -1))"],
             "if body.startswith(('#', '*', ';', ':')):": [],
         }))
+    # the includable part of a template body: the order / chaining of the removals (shared with C12)
+    from contracts import c12
+    body = c12.template_to_body_contract()
+    body.prop = "C04"
+    cs.append(body)
     return cs
 
 
